@@ -278,7 +278,10 @@ CGEN_FUNCTIONS = ["constmap.c:hash:C_cm_hash", "cdb_hash.c:cdb_hash", "cdb_unpac
                   # qmail-rspawn and qmail-lspawn, safeput() of received.c, the queue file name formatter
                   "qmail-rspawn.c:report:C_rreport", "qmail-lspawn.c:report:C_lreport", "received.c:safeput:C_safeput", "fmtqfn.c:fmtqfn",
                   "qmail-rspawn.c:report:K_rreport:chk", "qmail-lspawn.c:report:K_lreport:chk", "received.c:issafe:K_issafe:chk",
-                  "received.c:safeput:K_safeput:chk", "fmtqfn.c:fmtqfn:K_fmtqfn:chk"]
+                  "received.c:safeput:K_safeput:chk", "fmtqfn.c:fmtqfn:K_fmtqfn:chk",
+                  # a local structure (struct ip_address ip), &ip as a struct argument, the file-scope strallocs addr and liphost
+                  # (stralloc_copys/append/cat/0), ipme_is() as an oracle over the run parameter g_ipme_: the SMTP address parser
+                  "qmail-smtpd.c:addrparse", "qmail-smtpd.c:addrparse:K_addrparse:chk"]
 
 def gen_params(srcdir):
     r = run([sys.executable, os.path.join(VERIF, "tools", "extract_params.py"), srcdir])
